@@ -66,8 +66,49 @@ pub fn safe_context() -> Context {
     })
 }
 
-/// never used as the command of a generated line (user-written loops / recursion are outside the domain)
-const NO_LINE: &[&str] = &["while", "goto", "std::flowcontrol::While", "std::flowcontrol::GoTo", "alias", "std::alias::Set", "fn", "function", "std::flowcontrol::Function", "for", "std::flowcontrol::ForIn"];
+/// true if `name` (alias or canonical) resolves to the same command as one of `aliases` in the live registry
+fn resolves_to_any(c: &Context, name: &str, aliases: &[&str]) -> bool {
+    match c.commands.get(name) {
+        Some(cmd) => {
+            let canon = cmd.name();
+            aliases.iter().any(|a| c.commands.get(a).map(|x| x.name() == canon).unwrap_or(false))
+        }
+        None => false,
+    }
+}
+
+/// loop / definition constructs: never the command of a generated line (user-written loops and recursion are outside the domain)
+const LOOPISH: &[&str] = &["while", "goto", "alias", "fn", "for"];
+/// commands whose work is proportional to a numeric argument
+const PROPORTIONAL_ALIASES: &[&str] = &["range", "random_text", "random_range"];
+
+thread_local! {
+    /// (names resolving to a resource-proportional command, names resolving to eval), computed once per thread
+    static FAMILIES: RefCell<Option<(std::collections::HashSet<String>, std::collections::HashSet<String>)>> = RefCell::new(None);
+}
+
+fn families<T>(f: impl FnOnce(&(std::collections::HashSet<String>, std::collections::HashSet<String>)) -> T) -> T {
+    FAMILIES.with(|fam| {
+        let mut fam = fam.borrow_mut();
+        if fam.is_none() {
+            let c = safe_context();
+            let mut all: Vec<String> = c.commands.aliases.keys().cloned().collect();
+            all.extend(c.commands.get_all_command_names());
+            let prop = all.iter().filter(|n| resolves_to_any(&c, n, PROPORTIONAL_ALIASES)).cloned().collect();
+            let eval = all.iter().filter(|n| resolves_to_any(&c, n, &["eval"])).cloned().collect();
+            *fam = Some((prop, eval));
+        }
+        f(fam.as_ref().unwrap())
+    })
+}
+
+fn is_proportional(name: &str) -> bool {
+    families(|(p, _)| p.contains(name))
+}
+
+fn is_eval(name: &str) -> bool {
+    families(|(_, e)| e.contains(name))
+}
 
 /// every invocable name (aliases and canonical names) of the safe context
 fn all_names() -> Vec<String> {
@@ -82,7 +123,7 @@ fn all_names() -> Vec<String> {
             // harness commands are not under test; loop constructs are never the command of a generated line
             let v: Vec<String> = v
                 .into_iter()
-                .filter(|x| !x.starts_with("hz::") && !["emit", "cap", "cap2", "hz_capture", "put", "tick", "tock"].contains(&x.as_str()) && !NO_LINE.contains(&x.as_str()))
+                .filter(|x| !x.starts_with("hz::") && !["emit", "cap", "cap2", "hz_capture", "put", "tick", "tock"].contains(&x.as_str()) && !resolves_to_any(&c, x, LOOPISH))
                 .collect();
             *n = Some(v);
         }
@@ -146,9 +187,6 @@ const PATHS: &[&str] = &["nofile.txt", "./no/such/dir", "", ".", "a/b/../c", "x 
 const NAMESV: &[&str] = &["v1", "v2", "v3", "undefined_var", "ha", "hm", "o1", "o2", "", "a b", "scope::x", "1"];
 const HANDLE_VARS: &[&str] = &["ha", "hm", "hs", "hb", "hr", "he"];
 
-/// commands whose work is proportional to a numeric argument (aliases and canonical names)
-const PROPORTIONAL: &[&str] = &["range", "std::collections::Range", "random_text", "rand_text", "std::random::Text", "random_range", "rand_range", "std::random::Range"];
-
 fn arg_for(t: &mut Tape, k: &Kind, outs: usize, bounded: bool) -> String {
     if bounded {
         // resource-proportional command: literal small numbers only, never a value computed by an earlier line
@@ -209,14 +247,13 @@ fn gen_line(t: &mut Tape, names: &[String], outs: &mut usize, st: &mut Stats, us
     if in_body && is_block_word(&cmd) {
         cmd = "noop".to_string();
     }
-    let ctx = safe_context();
-    let sig = match ctx.commands.get(&cmd) {
+    let sig = SAFE.with(|s| match s.borrow().as_ref().and_then(|c| c.commands.get(&cmd)) {
         Some(c) => signature_of(&c.help(), &cmd),
         None => vec![],
-    };
+    });
     let typed = !sig.is_empty() && t.chance(3, 4);
     let mut args: Vec<String> = vec![];
-    let bounded = PROPORTIONAL.contains(&cmd.as_str());
+    let bounded = is_proportional(&cmd);
     if bounded {
         st.class("resource-proportional-command-bounded");
     }
@@ -295,7 +332,7 @@ fn case_commands_with(t: &mut Tape, st: &mut Stats, max_lines: usize) -> Verdict
             3 => {
                 // an alias of an SDK command with plain stored arguments (never another alias, never eval: no user-written recursion)
                 let target = t.pick_ref(&names).clone();
-                if target == "eval" || target == "std::Eval" || PROPORTIONAL.contains(&target.as_str()) {
+                if is_eval(&target) || is_proportional(&target) {
                     continue;
                 }
                 let name = format!("myal{}", user.len());
@@ -353,7 +390,7 @@ const SOUP: &[&str] = &[" ", " ", " ", "\n", "\n", "=", " = ", "\"", "\\", "#", 
 fn case_text(t: &mut Tape, st: &mut Stats) -> Verdict {
     let names = all_names();
     // resource-proportional commands are not spelled in the soup (their arguments could not be bounded there)
-    let soup_names: Vec<&String> = names.iter().filter(|n| !PROPORTIONAL.contains(&n.as_str())).collect();
+    let soup_names: Vec<&String> = names.iter().filter(|n| !is_proportional(n)).collect();
     let mut script = if t.flip() { String::from(PREAMBLE) } else { String::new() };
     let n = t.len(60);
     for _ in 0..n {
@@ -443,11 +480,11 @@ pub fn property() -> Property {
             Section {
                 name: "commands",
                 plan: |t| match t {
-                    Tier::Quick => Plan::Random { cases: 60_000, max_len: 400 },
+                    Tier::Quick => Plan::Random { cases: 400_000, max_len: 400 },
                     Tier::Thorough => Plan::Random { cases: 2_000_000, max_len: 500 },
                 },
                 case: case_commands,
-                min_classes: &[("typed-argument-list", 100_000), ("untyped-argument-list", 30_000), ("user-alias", 1000), ("user-function", 1000), ("finite-for-loop", 1000)],
+                min_classes: &[("typed-argument-list", 500_000), ("untyped-argument-list", 200_000), ("user-alias", 5000), ("user-function", 5000), ("finite-for-loop", 5000)],
             },
             Section {
                 name: "commands-large",
@@ -461,7 +498,7 @@ pub fn property() -> Property {
             Section {
                 name: "text",
                 plan: |t| match t {
-                    Tier::Quick => Plan::Random { cases: 40_000, max_len: 200 },
+                    Tier::Quick => Plan::Random { cases: 150_000, max_len: 200 },
                     Tier::Thorough => Plan::Random { cases: 1_000_000, max_len: 300 },
                 },
                 case: case_text,
